@@ -47,9 +47,12 @@ New(cfg, now) ==
    since |-> NoT]      \* when CLOSING began
 
 \* ---- transport.loseConnection / abortConnection (dropConnection)
+\* abort = TRUE: the connection is aborted (every deadline: what is still buffered must not keep it alive), FALSE: closed after flushing
 Drop(c, abort) ==
   IF c.st = "CLOSED" THEN c
   ELSE [c EXCEPT !.dbm = TRUE, !.st = "CLOSED", !.drop = IF abort THEN "abort" ELSE "lose"]
+\* ... or the statements leave it open which of the two (the closing handshake is complete, or the connection is failed by dropping)
+DropEither(c) == IF c.st = "CLOSED" THEN c ELSE [c EXCEPT !.dbm = TRUE, !.st = "CLOSED", !.drop = "either"]
 
 \* ---- a frame is written; after the close notification nothing may be written, after a close frame no data frame
 Write(c, kind) ==
@@ -69,9 +72,9 @@ SendCloseFrame(cfg, c, now, isReply) ==
 FailConnection(cfg, c, now) ==
   IF c.st = "CLOSED" THEN c
   ELSE LET f == [c EXCEPT !.fbm = TRUE] IN
-       IF cfg.failByDrop THEN Drop([f EXCEPT !.clean = FALSE, !.why = "i-dropped"], TRUE)
+       IF cfg.failByDrop THEN DropEither([f EXCEPT !.clean = FALSE, !.why = "i-dropped"])
        ELSE IF f.st # "CLOSING" THEN SendCloseFrame(cfg, f, now, FALSE)
-       ELSE Drop(f, FALSE)
+       ELSE DropEither(f)
 
 Opened(cfg, c, now) ==
   IF c.st # "CONNECTING" THEN c
@@ -93,11 +96,11 @@ PeerCloseOk(cfg, c0, now, rc, rr) ==
   IF c0.st = "CLOSED" THEN c0                   \* nothing received after CLOSED is looked at
   ELSE IF c.st = "CLOSING"
   THEN LET d == [c EXCEPT !.tClose = NoT, !.clean = TRUE] IN
-       IF cfg.role = "server" THEN Drop(d, TRUE)
+       IF cfg.role = "server" THEN DropEither(d)
        ELSE [d EXCEPT !.tDrop = IF cfg.dropTO > 0 THEN Exact(now, cfg.dropTO) ELSE NoT]
   ELSE IF c.st = "OPEN"
   THEN LET r == SendCloseFrame(cfg, [c EXCEPT !.clean = TRUE], now, TRUE) IN
-       IF cfg.role = "server" THEN Drop(r, FALSE)
+       IF cfg.role = "server" THEN DropEither(r)
        ELSE [r EXCEPT !.tDrop = IF cfg.dropTO > 0 THEN Exact(now, cfg.dropTO) ELSE NoT]   \* the server must drop TCP in time
   ELSE c
 
